@@ -387,6 +387,14 @@ class World:
             self.provs.append(p)
         for p, r in zip(self.provs, self.roots):
             p.mkdirs(r)
+        # content that exists before the engine is started for the first time; the providers' read positions are then
+        # put at 'latest', as a freshly connected real provider has them (otherwise the mock would also replay the
+        # creations as events and the initial walk would never matter)
+        for side, op, *a in cfg.get("prepop", ()):
+            user_op(self.provs[side], self.roots[side], op, a)
+        if cfg.get("prepop"):
+            for p in self.provs:
+                p._cursor = p._latest_cursor
         for i, p in enumerate(self.provs):
             wrap_provider(p, i, self.ctl)
         self.sd = {}
